@@ -1330,6 +1330,13 @@ class Model:
         seeds = jax.random.split(seed, len(dists))
 
         for dist, seed in zip(dists, seeds):
+            if not self.auto_update:
+                # without auto-update, the inputs of the distribution may still hold
+                # values computed from the old values of its ancestors
+                input_names = [n.name for n in (*dist.inputs, *dist.kwinputs.values())]
+                if input_names:
+                    self.update(*input_names)
+
             tfp_dist = dist.init_dist()
 
             event_shape = tfp_dist.event_shape
